@@ -3,7 +3,241 @@ import GnpyModel
 /- driver handlers for property C13 (ops are named "c13.<name>") -/
 open Lean
 namespace Gnpy.Drv.C13
+open Gnpy.Verdict Gnpy.HE
 
-def handlers : List (String × Handler) := []
+/-- transpose a list of per-contribution (optional) per-channel lists into per-channel argument lists -/
+def argsOfChannel (contribs : List (Option (List Float))) (i : Nat) : List (Option Float) :=
+  contribs.map (fun c => match c with | none => none | some l => some (l.getD i 0.0))
+
+def getContribs (j : Json) : R (List (Option (List Float))) := getList (getOpt (getList getF)) j
+
+structure RawRx where
+  osnrAse : List Float
+  osnrAse01 : List Float
+  snr : List Float
+  snr01 : List Float
+  baud : List Float
+
+def getRaw (j : Json) : R RawRx := do
+  return { osnrAse := ← fList getF j "raw_osnr_ase", osnrAse01 := ← fList getF j "raw_osnr_ase_01nm",
+           snr := ← fList getF j "raw_snr", snr01 := ← fList getF j "raw_snr_01nm", baud := ← fList getF j "baud" }
+
+def RawRx.channels (r : RawRx) : List (Rx Float) :=
+  (List.range r.snr01.length).map (fun i =>
+    calcSnr (r.osnrAse.getD i 0.0) (r.osnrAse01.getD i 0.0) (r.snr.getD i 0.0) (r.snr01.getD i 0.0) (r.baud.getD i 0.0))
+
+def jRxs (rxs : List (Rx Float)) : Json :=
+  jObj [("osnr_ase", jList jF (rxs.map (·.osnrAse))), ("osnr_ase_01nm", jList jF (rxs.map (·.osnrAse01))),
+        ("snr", jList jF (rxs.map (·.snr))), ("snr_01nm", jList jF (rxs.map (·.snr01)))]
+
+/-- successive update_snr calls on one receiver: state after every call -/
+def updateSnrH (j : Json) : R Json := do
+  let raw ← getRaw j
+  let calls ← fList getContribs j "calls"
+  let mut rxs := raw.channels
+  let mut out : List Json := []
+  for c in calls do
+    rxs := (List.range rxs.length).map (fun i =>
+      match rxs[i]? with
+      | some r => updateSnr r (argsOfChannel c i)
+      | none => calcSnr 0.0 0.0 0.0 0.0 0.0)
+    out := out ++ [jRxs rxs]
+  return Json.arr out.toArray
+
+def getPair (j : Json) : R (Float × Float) := do
+  match ← getArr j with
+  | [a, b] => return (← getF a, ← getF b)
+  | _ => throw "pair expected"
+
+def jPen : Pen Float → Json
+  | .fin v => jF v
+  | .inf => Json.null
+
+/-- a penalties dict in insertion order: [[impairment-values per channel], table] per impairment -/
+structure PenIn where
+  values : List Float
+  table : List (Float × Float)
+
+def getPenIn (j : Json) : R PenIn := do
+  return { values := ← fList getF j "values", table := ← fList getPair j "table" }
+
+def channelPens (ps : List PenIn) (i : Nat) : List (Pen Float) :=
+  ps.map (fun p => interpPenalty (p.values.getD i 0.0) p.table)
+
+def calcPenaltiesH (j : Json) : R Json := do
+  let ps ← fList getPenIn j "penalties"
+  let n ← fNat j "nch"
+  let per := ps.map (fun p => (List.range n).map (fun i => interpPenalty (p.values.getD i 0.0) p.table))
+  let tot := (List.range n).map (fun i => totalPenalty (channelPens ps i))
+  return jObj [("per", jList (jList jPen) per), ("total", jList jPen tot)]
+
+def normaliseH (j : Json) : R Json := do
+  let es ← fList getPair j "entries"
+  let t := normalise es
+  return jList (fun (p : Float × Float) => Json.arr #[jF p.1, jF p.2]) t
+
+/-- receiver evaluation of one direction: update_snr(args) ; calc_penalties ; min metric -/
+structure Eval where
+  rxs : List (Rx Float)
+  total : List (Pen Float)
+  minM : Option Float
+
+def evalRx (raw : RawRx) (contribs : List (Option (List Float))) (ps : List PenIn) : Eval :=
+  let chans := raw.channels
+  let rxs := (List.range chans.length).map (fun i =>
+    match chans[i]? with
+    | some r => updateSnr r (argsOfChannel contribs i)
+    | none => calcSnr 0.0 0.0 0.0 0.0 0.0)
+  let total := (List.range chans.length).map (fun i => totalPenalty (channelPens ps i))
+  let ms := (rxs.zip total).map (fun x => metric x.1.snr01 x.2)
+  { rxs, total, minM := minMetric ms }
+
+def jEval (e : Eval) : Json :=
+  jObj [("rx", jRxs e.rxs), ("total", jList jPen e.total), ("min", jOpt jF e.minM),
+        ("round", jOpt jF (e.minM.map round2)),
+        ("tie", jOpt jF (e.minM.map tieMargin2))]
+
+structure Dir where
+  raw : RawRx
+  contribs : List (Option (List Float))
+  pens : List PenIn
+
+def getDir (j : Json) : R Dir := do
+  return { raw := ← getRaw j, contribs := ← getContribs (← fld j "contribs"),
+           pens := ← fList getPenIn j "penalties" }
+
+/-- fixed-mode verdict of a request (forward, optionally reverse) -/
+def fixedH (j : Json) : R Json := do
+  let osnr ← fF j "osnr"
+  let margin ← fF j "margin"
+  let bidir ← fBool j "bidir"
+  let fwd ← getDir (← fld j "fwd")
+  let ef := evalRx fwd.raw fwd.contribs fwd.pens
+  let pf := passFixed ef.minM osnr margin
+  let (er, pr) ← match optFld j "rev" with
+    | some rj => do
+      let rv ← getDir rj
+      let e := evalRx rv.raw rv.contribs rv.pens
+      pure (some e, passFixed e.minM osnr margin)
+    | none => pure (none, true)
+  let reason := fixedReason pf bidir pr
+  return jObj [("fwd", jEval ef), ("rev", jOpt jEval er), ("pass_fwd", jBool pf), ("pass_rev", jBool pr),
+               ("reason", jOpt jStr reason.str), ("thr", jF (osnr + margin))]
+
+/-- numeric attributes of a mode -/
+structure ModeNum where
+  m : Mode
+  osnr : Float
+  txOsnr : Float
+  tables : List (String × List (Float × Float))
+
+def getTable (j : Json) : R (String × List (Float × Float)) := do
+  return (← fStr j "name", ← fList getPair j "table")
+
+def getMode (j : Json) : R ModeNum := do
+  return { m := { id := ← fNat j "id", baud := ← fInt j "baud", bitRate := ← fInt j "bit_rate",
+                  minSpacing := ← fInt j "min_spacing", offset := ← fInt j "offset" },
+           osnr := ← fF j "osnr", txOsnr := ← fF j "tx_osnr", tables := ← fList getTable j "tables" }
+
+/-- one line propagation (what the receiver saw for one (baud, offset) pair) -/
+structure LineProp where
+  pair : Int × Int
+  raw : RawRx
+  roadm : List (Option (List Float))
+  cd : List Float
+  pmd : List Float
+  pdl : List Float
+
+def getProp (j : Json) : R LineProp := do
+  return { pair := (← fInt j "baud_hz", ← fInt j "offset"), raw := ← getRaw j,
+           roadm := ← getContribs (← fld j "roadm"), cd := ← fList getF j "cd", pmd := ← fList getF j "pmd",
+           pdl := ← fList getF j "pdl" }
+
+def pensFor (p : LineProp) (md : ModeNum) : List PenIn :=
+  md.tables.map (fun t =>
+    { values := (if t.1 == "chromatic_dispersion" then p.cd else if t.1 == "pmd" then p.pmd else p.pdl),
+      table := t.2 })
+
+/-- judge mode `md` on propagation `p`: the body of the inner loop (append tx, update, delete, penalties) -/
+def judge (p : LineProp) (md : ModeNum) : Eval :=
+  let nch := p.raw.snr01.length
+  let (args, _) := loopStep p.roadm (List.replicate nch md.txOsnr)
+  evalRx p.raw args (pensFor p md)
+
+def jOutcome (props : List LineProp) (mds : List ModeNum) (o : Outcome) : Json :=
+  let fig (m : Mode) (pr : Int × Int) : Json :=
+    match props.find? (fun p => p.pair == pr), mds.find? (fun d => d.m.id == m.id) with
+    | some p, some d => jEval (judge p d)
+    | _, _ => Json.null
+  match o with
+  | .served m pr => jObj [("kind", jStr "served"), ("mode", jNat m.id), ("prop", Json.arr #[jInt pr.1, jInt pr.2]),
+                          ("figures", fig m pr)]
+  | .noFeasibleMode m pr => jObj [("kind", jStr "NO_FEASIBLE_MODE"), ("mode", jNat m.id),
+                                  ("prop", Json.arr #[jInt pr.1, jInt pr.2]), ("figures", fig m pr)]
+  | .noBaud => jObj [("kind", jStr "NO_FEASIBLE_BAUDRATE_WITH_SPACING"), ("mode", Json.null), ("prop", Json.null),
+                     ("figures", Json.null)]
+
+/-- prefix of `l` up to and including the first element satisfying `p` -/
+def takeUntilIncl (p : α → Bool) : List α → List α
+  | [] => []
+  | x :: xs => if p x then [x] else x :: takeUntilIncl p xs
+
+/-- the mode loop: as it is in the code and as repaired; plus every (propagation, mode) judgement with its
+class-D margins -/
+def selectH (j : Json) : R Json := do
+  let mds ← fList getMode j "modes"
+  let props ← fList getProp j "props"
+  let spacing ← fInt j "spacing"
+  let margin ← fF j "margin"
+  let modes := mds.map (·.m)
+  let feas (pr : Int × Int) (m : Mode) : Bool :=
+    match props.find? (fun p => p.pair == pr), mds.find? (fun d => d.m.id == m.id) with
+    | some p, some d => passAuto (judge p d).minM d.osnr margin
+    | _, _ => false
+  let cur := selectModeOld feas modes spacing
+  let rep := selectMode feas modes spacing
+  let allCur := (pairsDesc modes spacing).flatMap (fun pr => (modesOf modes spacing pr.1).map (fun m => (pr, m)))
+  let explCur := takeUntilIncl (fun (x : (Int × Int) × Mode) => feas x.1 x.2) allCur
+  let explRep := takeUntilIncl (fun (m : Mode) => feas (own m) m) (modeOrder modes spacing)
+  let judgements := props.flatMap (fun p => (mds.filter (fun d => d.m.baud == p.pair.1)).map (fun d =>
+    let e := judge p d
+    jObj [("prop", Json.arr #[jInt p.pair.1, jInt p.pair.2]), ("mode", jNat d.m.id), ("min", jOpt jF e.minM),
+          ("round", jOpt jF (e.minM.map round2)), ("tie", jOpt jF (e.minM.map tieMargin2)),
+          ("thr", jF (d.osnr + margin)), ("pass", jBool (passAuto e.minM d.osnr margin))]))
+  return jObj [("current", jOutcome props mds cur), ("repaired", jOutcome props mds rep),
+               ("pairs", jList (fun (p : Int × Int) => Json.arr #[jInt p.1, jInt p.2]) (pairsDesc modes spacing)),
+               ("order", jList jNat ((modeOrder modes spacing).map (·.id))),
+               ("explored_current", jList (fun (x : (Int × Int) × Mode) => jNat x.2.id) explCur),
+               ("explored_repaired", jList (fun (m : Mode) => jNat m.id) explRep),
+               ("judgements", Json.arr judgements.toArray)]
+
+/-- request-level reason after an automatic selection and the reverse verdict -/
+def autoReasonH (j : Json) : R Json := do
+  let kind ← fStr j "kind"
+  let bidir ← fBool j "bidir"
+  let revPass ← fBool j "rev_pass"
+  let dummy : Mode := { id := 0, baud := 0, bitRate := 0, minSpacing := 0, offset := 0 }
+  let o : Outcome := if kind == "served" then .served dummy (0, 0)
+                     else if kind == "NO_FEASIBLE_MODE" then .noFeasibleMode dummy (0, 0) else .noBaud
+  return jOpt jStr (autoReason o bidir revPass).str
+
+/-- contributions list handed to update_snr in `propagate` and in each iteration of the mode loop -/
+def contribsH (j : Json) : R Json := do
+  let els ← fList (getOpt getF) j "path"      -- the roadm-osnr value of a ROADM crossing (null = None)
+  let kinds ← fList getBool j "is_roadm"
+  let path : List (PathEl Float) := (kinds.zip els).map (fun x => if x.1 then .roadm x.2 else .other)
+  let txs ← fList getF j "txs"
+  let jo := jList (jOpt jF)
+  let tx0 := txs.headD 0.0
+  return jObj [("propagate", jo (propagateArgs path tx0)),
+               ("loop", jList jo (loopArgs (roadmOsnr path) txs))]
+
+def requestCheckH (j : Json) : R Json := do
+  return jOpt jStr (requestCheck (← fBool j "trx_known") (← fBool j "mode_given") (← fBool j "mode_found")
+    (← fInt j "baud") (← fInt j "min_spacing") (← fInt j "spacing"))
+
+def handlers : List (String × Handler) :=
+  [("c13.request_check", requestCheckH), ("c13.update_snr", updateSnrH), ("c13.calc_penalties", calcPenaltiesH), ("c13.normalise", normaliseH),
+   ("c13.fixed", fixedH), ("c13.select", selectH), ("c13.auto_reason", autoReasonH), ("c13.contribs", contribsH)]
 
 end Gnpy.Drv.C13
